@@ -551,6 +551,8 @@ func (s *State) atLoopHead(l *Loop) bool {
 			c.Notes = append(c.Notes, fmt.Sprintf("loop %d at %s has no invariant (treated as `true`)", l.Ordinal, pos))
 		}
 	}
+	s.runGhost(fr, fmt.Sprintf("loop %d entry", l.Ordinal))
+	c.Obls = append(c.Obls, &Obligation{Name: fmt.Sprintf("%s/reach@loop%d", c.Key, l.Ordinal), Kind: "reach", Func: c.Key, Desc: "the loop is reachable on at least one path", Pos: pos, Path: s.Path, Goal: "false", ExpectSat: true, PathID: s.PathID})
 	if ls != nil {
 		for i, inv := range ls.Invariants {
 			if unbound(inv) {
